@@ -206,6 +206,23 @@ func (c *checker) prepare() {
 			c.overlay[filepath.Join(repoDir, g.Pkg, "zz_verif_"+strings.ToLower(filepath.Base(f)))] = b
 		}
 	}
+	// development aid: VERIF_REPLACE="rel/path.go=/abs/replacement.go,..." overlays files of /repo
+	// (engine and native replay both see the replacement; /repo itself is never written). Used to
+	// try a suggested repair or a mutation against a harness.
+	if rep := os.Getenv("VERIF_REPLACE"); rep != "" {
+		for _, kv := range strings.Split(rep, ",") {
+			k, v, ok := strings.Cut(kv, "=")
+			if !ok {
+				fatal("VERIF_REPLACE: %q", kv)
+			}
+			b, err := os.ReadFile(v)
+			if err != nil {
+				fatal("%v", err)
+			}
+			c.overlay[filepath.Join(repoDir, k)] = b
+			fmt.Printf("REPLACED (development run, not a verdict on /repo): %s <- %s\n", k, v)
+		}
+	}
 	c.env = append(os.Environ(), "GOFLAGS=-mod=mod", "GOPROXY=off", "GOSUMDB=off", "GOTOOLCHAIN=local", "GOWORK=off")
 }
 
@@ -309,7 +326,16 @@ func (c *checker) buildNative() error {
 	var sb strings.Builder
 	sb.WriteString("package main\n\nimport (\n\t\"fmt\"\n\t\"os\"\n")
 	alias := map[string]string{}
+	usedPkg := map[string]bool{}
+	for _, e := range c.pc.Entries {
+		usedPkg[c.entryPkg(e)] = true
+	}
 	for i, g := range c.groups() {
+		if !usedPkg[g.Pkg] {
+			// a "more" package that only holds helpers (no entry): keep it linked, but unnamed
+			fmt.Fprintf(&sb, "\t_ %q\n", modPath+"/"+g.Pkg)
+			continue
+		}
 		alias[g.Pkg] = fmt.Sprintf("p%d", i)
 		fmt.Fprintf(&sb, "\tp%d %q\n", i, modPath+"/"+g.Pkg)
 	}
